@@ -24,6 +24,7 @@ import sqlite3
 import tempfile
 
 CUR_STEP = contextvars.ContextVar("vh_cur_step", default=None)
+REMOTE_ROOTS = {}     # location name -> real root directory of the shell-based remote locations of the current run
 
 
 def val(v):
@@ -183,6 +184,21 @@ async def build_real(ctx, desc, workdir):
                 st.add_output_port(pi, port(po))
             realnames[s["name"]] = [name]
         elif k == "exec":
+            if deploy is None and desc.get("remote"):
+                # a multi-location shell-based remote deployment (chroot'ed roots, see fs_remote.py); jobs take
+                # `per_job` locations each
+                from vh.sut import fs_remote
+                fs_remote._register()
+                tb = fs_remote.Toolbox(os.path.join(os.path.dirname(workdir), "roots"))
+                roots = {n: tb.new_root("R_%s" % n) for n in desc["remote"]["locs"]}
+                REMOTE_ROOTS.clear()
+                REMOTE_ROOTS.update(roots)
+                dconf = DeploymentConfig(name="R", type=fs_remote.TYPE, config={"roots": roots, "transferBufferSize": 2 ** 16, "guard": True},
+                                         external=False, lazy=False, workdir="/tmp")
+                cport = wf.create_port(cls=ConnectorPort, name="__conn__")
+                P["__conn__"] = cport
+                deploy = wf.create_step(cls=DeployStep, name="/__deploy__/__LOCAL__", deployment_config=dconf,
+                                        connector_port=cport)
             if deploy is None:
                 dconf = DeploymentConfig(name="__LOCAL__", type="local", config={}, external=True, lazy=False,
                                          workdir=workdir)
@@ -190,12 +206,16 @@ async def build_real(ctx, desc, workdir):
                 P["__conn__"] = cport
                 deploy = wf.create_step(cls=DeployStep, name="/__deploy__/__LOCAL__", deployment_config=dconf,
                                         connector_port=cport)
-            binding = BindingConfig(targets=[Target(deployment=dconf, workdir=workdir)])
+            if desc.get("remote"):
+                binding = BindingConfig(targets=[Target(deployment=dconf, locations=desc["remote"].get("per_job", 1), workdir="/tmp")])
+            else:
+                binding = BindingConfig(targets=[Target(deployment=dconf, workdir=workdir)])
             jport = wf.create_port(cls=JobPort, name=s["name"] + ".job")
             P[s["name"] + ".job"] = jport
             sched = wf.create_step(cls=ScheduleStep, name=name + "/__schedule__", job_prefix=name,
-                                   connector_ports={"__LOCAL__": deploy.get_output_port()},
-                                   binding_config=binding, job_port=jport)
+                                   connector_ports={dconf.name: deploy.get_output_port()},
+                                   binding_config=binding, job_port=jport,
+                                   **({"output_directory": desc["remote"]["pin_output"]} if desc.get("remote", {}).get("pin_output") else {}))
             ex = wf.create_step(cls=ExecuteStep, name=name, job_port=jport)
             ex.command = C["HCommand"](ex)
             for p in s["ins"]:
@@ -269,7 +289,7 @@ class Recorder:
                         c = self.workflow.context
                         locs = c.scheduler.get_locations(token.value.name)
                         e["locs"] = ["%s/%s" % (x.deployment, x.name) for x in locs]
-                        e["exists"] = [os.path.isdir(d) for x in locs for d in e["dirs"]] if all(x.local for x in locs) else None
+                        e["exists"] = [os.path.isdir(d if x.local else REMOTE_ROOTS.get(x.name, "/nonexistent") + d) for x in locs for d in e["dirs"]]
                         e["registered"] = [bool(c.data_manager.get_data_locations(d, x.deployment, x.name)) for x in locs for d in e["dirs"]]
                     except Exception as ex:  # observation failure is reported by the driver
                         e["observe_error"] = repr(ex)
